@@ -31,15 +31,18 @@ type ROp struct {
 // RegistryPlan: concurrent clients add/remove/start/stop torrents in one session with a tiny
 // port range; quiescent invariants, linearizability of the recorded history, restart fidelity.
 type RegistryPlan struct {
-	K        Knobs        `json:"knobs"`
-	Ports    int          `json:"ports"`
-	Metas    int          `json:"metas"`
-	Clients  [][]ROp      `json:"clients"`
-	Phases   int          `json:"phases"` // the client scripts are split over this many phases, with a restart between
-	Compact  bool         `json:"compact"`
-	YieldP   float64      `json:"yield_p"`
-	SpecSeed uint64       `json:"spec_seed"`
-	Layouts  []gen.Layout `json:"layouts,omitempty"`
+	K       Knobs   `json:"knobs"`
+	Ports   int     `json:"ports"`
+	Metas   int     `json:"metas"`
+	Clients [][]ROp `json:"clients"`
+	Phases  int     `json:"phases"` // the client scripts are split over this many phases, with a restart between
+	// LowerMaxPieces > 0: the first restart runs with this piece-count limit: records of bigger
+	// torrents read back fine but are refused at load (they stay in the database, unloaded)
+	LowerMaxPieces uint32       `json:"lower_max_pieces,omitempty"`
+	Compact        bool         `json:"compact"`
+	YieldP         float64      `json:"yield_p"`
+	SpecSeed       uint64       `json:"spec_seed"`
+	Layouts        []gen.Layout `json:"layouts,omitempty"`
 }
 
 type regState struct {
@@ -292,6 +295,7 @@ func RunRegistry(env *Env, plan *RegistryPlan) {
 		}
 	}
 
+	unloadable := map[string]bool{} // records that a later run refused to load
 	quiescent := func(when string) map[string]torSnap {
 		// ids unique, ports unique and inside the range, free + owned = range, session == DB
 		var ts []*torrent.Torrent
@@ -346,7 +350,7 @@ func RunRegistry(env *Env, plan *RegistryPlan) {
 			return snaps
 		}
 		for id := range recs {
-			if !ids[id] {
+			if !ids[id] && !unloadable[id] {
 				simrt.Violate("C14", "db.extra_record", "%s: resume database has a record for %q which is not in the session", when, id)
 			}
 		}
@@ -465,6 +469,15 @@ func RunRegistry(env *Env, plan *RegistryPlan) {
 			if cerr != nil {
 				simrt.Violate("C14", "close.error", "Session.Close failed: %v", cerr)
 			}
+			if plan.LowerMaxPieces > 0 && ph == 0 {
+				k.MaxPieces = plan.LowerMaxPieces
+				for id, b := range before {
+					if b.Pieces > plan.LowerMaxPieces {
+						unloadable[id] = true
+						simrt.Count("fault.registry.unloadable_record", 1)
+					}
+				}
+			}
 			node2, rerr := env.StartNode(host, fs, node.DBPath, k)
 			if rerr != nil {
 				simrt.Violate("C14", "restart.error", "the session does not restart on its own database: %v", rerr)
@@ -475,6 +488,9 @@ func RunRegistry(env *Env, plan *RegistryPlan) {
 			after := quiescent(fmt.Sprintf("after restart %d", ph))
 			for id, b := range before {
 				a, ok := after[id]
+				if !ok && unloadable[id] {
+					continue
+				}
 				if !ok {
 					simrt.Violate("C14", "restart.lost_torrent", "torrent %q disappeared across a restart", id)
 					continue
@@ -591,6 +607,9 @@ func specRoundTrip(env *Env, seed uint64) {
 func init() {
 	Register(&Scenario{Name: "registry", Gen: func(r *simrt.Rand, tier string, p *Plan) {
 		rp := &RegistryPlan{Ports: r.Range(2, 5), Metas: r.Range(2, 5), Phases: r.Range(1, 3), Compact: r.Chance(0.5), SpecSeed: r.Uint64(), YieldP: simrt.Pick(r, []float64{0, 0.1, 0.3, 0.6, 0.9})}
+		if r.Chance(0.3) {
+			rp.LowerMaxPieces = uint32(r.Range(1, 2))
+		}
 		rp.K = Knobs{DisableOutgoingEncryption: true}
 		nc := r.Range(1, 4)
 		ids := []string{"a", "b", "c", ""}
